@@ -62,3 +62,6 @@ pub broadcast axiom fn axiom_std_max_i64(a: i64, b: i64)
 pub assume_specification [i64::abs](x: i64) -> (r: i64)
     requires x != i64::MIN,
     ensures r == (if x >= 0 { x as int } else { -(x as int) });
+// std::cmp::Ordering is a plain enum: its PartialEq is structural equality
+pub assume_specification[ <Ordering as PartialEq>::eq ](a: &Ordering, b: &Ordering) -> (r: bool)
+    ensures r == (*a == *b);
